@@ -376,6 +376,14 @@ func addInclude(includesSet map[string]*Include, includes []*Include, t *Type, f
 			includesSet[includeName] = include
 			includes = append(includes, include)
 		}
+	} else if typedef, ok := frugal.typedefIndex[t.Name]; ok && typedef.Type != t {
+		// A local typedef may alias a type that mentions an include
+		// (typedef list<base.thing> things); generated service and scope
+		// code unrolls the alias, so the include is referenced as well.
+		includesSet, includes, err = addInclude(includesSet, includes, typedef.Type, frugal)
+		if err != nil {
+			return nil, nil, err
+		}
 	}
 	// Check container types.
 	if t.KeyType != nil {
